@@ -3,7 +3,7 @@ CONSTANTS
   Budget = 4
   Enabled = {"Match", "PatOnly", "Module"}
   NameSet = {"a", "b"}
-  ExtraParens = FALSE
+  ExtraParens = TRUE
   Emit = TRUE
 SPECIFICATION Spec
 INVARIANTS EmitOK
